@@ -439,6 +439,21 @@ def decide_L(prop, tier, seed, t0, replay):
         info = chan_l.run(seed, tier)
     an = chan_l.analyse(info["dirs"], prop)
     oracle = [o for o in an["oracle"] if o["property"] == prop]
+    if prop == "C13" and not replay:
+        # second sentence of C13: the generated modules compile (all four fragment selections, 3 builds of the lab)
+        run_translators()
+        ok_x, _ = chan_x.build_gen()
+        lake_build(["trucdrv"])
+        xinfo = chan_x.run(seed, tier, read_prims())
+        xan, xreq = chan_x.analyse(xinfo, read_prims())
+        for o in xan["oracle"]:
+            if o["property"] == "C13":
+                oracle.append({"property": "C13", "message": o["message"], "requests": chan_x.module_of(xreq, o["line"]) if xreq else []})
+        not_compiled = [k for k, b in xinfo.get("builds", {}).items() if not b.get("compiled")]
+        if (not_compiled or xinfo["errors"]) and not any(o["property"] == "C13" for o in xan["oracle"]):
+            an["n_disagree"] = an.get("n_disagree", 0) + 1
+            an["disagreements"].append({"dir": "", "history": 0, "line": 0, "request": "lab build", "impl": "lab does not compile: " + str(xinfo["errors"][:1])[:600], "model": "compiles", "requests": []})
+        an["modules_compiled"] = {"modules": xan["modules"], "builds": {k: b.get("compiled") for k, b in xinfo.get("builds", {}).items()}}
     if prop == "C18" and not replay:
         t_or, t_dis, t_info, t_an = t_side("C18", seed, tier)
         for o in t_or:
@@ -510,6 +525,8 @@ def decide_L(prop, tier, seed, t0, replay):
     }
     if det is not None:
         cov["two_process_lines_compared"] = det["lines"]
+    if "modules_compiled" in an:
+        cov["generated_modules_compiled"] = an["modules_compiled"]
     write_evidence(prop, tier, seed, cov, ["layouts end below 2^63 (usize overflow not modelled beyond the usize::MAX sentinel)",
                                            "alignments are positive"], time.time() - t0, violations)
     for l in lines:
